@@ -878,11 +878,11 @@ Proof.
   destruct (Nat.eq_dec j0 j) as [->|Hne].
   - assert (Hnull : forall js' objs' v', nth j objs' None = None -> nth j (fst (merge_loop false js' nb i objs' v')) None = None).
     { induction js' as [|a js' IH']; intros objs' v' Hn; simpl; auto.
-      destruct (is_nvswitch (nth a objs' None)); apply IH';
+      match goal with |- context [if ?b then _ else _] => destruct b end; apply IH';
         (destruct (Nat.eq_dec a j) as [->|Hd]; [destruct (Nat.lt_ge_cases j (length objs')); [rewrite nth_upd_same by auto; auto| rewrite nth_overflow by (rewrite upd_length; auto); auto] | rewrite nth_upd_other by auto; auto]). }
-    destruct (is_nvswitch (nth j objs None)); apply Hnull; apply nth_upd_same; auto.
+    match goal with |- context [if ?b then _ else _] => destruct b end; apply Hnull; apply nth_upd_same; auto.
   - destruct Hin as [->|Hin]; [congruence|].
-    destruct (is_nvswitch (nth j0 objs None)); apply IH; auto; rewrite upd_length; auto.
+    match goal with |- context [if ?b then _ else _] => destruct b end; apply IH; auto; rewrite upd_length; auto.
 Qed.
 
 (* --- get_by_name --- *)
@@ -897,11 +897,10 @@ Definition kind_complete (d : idist) : Prop :=
 Lemma by_name_matches name d : kind_complete d ->
   matches name TYPE_NONE HWLOC_DISTANCES_KIND_ALL d = matches name TYPE_NONE 0 d.
 Proof.
-  intros (Hf & Hv). unfold matches. rewrite kind_all_from, kind_all_value.
-  rewrite !N.land_0_l. rewrite N.eqb_refl. simpl.
+  intros (Hf & Hv). unfold matches. rewrite kind_all_from, kind_all_value, !N.land_0_l.
   destruct (N.eqb_spec (N.land HWLOC_DISTANCES_KIND_FROM_ALL (d_kind d)) 0); [congruence|].
   destruct (N.eqb_spec (N.land HWLOC_DISTANCES_KIND_VALUE_ALL (d_kind d)) 0); [congruence|].
-  rewrite !andb_false_r. reflexivity.
+  rewrite !andb_false_r. rewrite !N.eqb_refl. cbn [negb andb]. reflexivity.
 Qed.
 
 Lemma filter_ext_Forall {A} (f g : A -> bool) l : Forall (fun x => f x = g x) l -> filter f l = filter g l.
@@ -916,4 +915,15 @@ Proof.
   - intros (H & _). apply H; auto.
   - intros H. repeat split; auto.
     + intros n' Hn'. congruence.
+Qed.
+
+(* positions the merge loop does not visit are untouched (both variants) *)
+Lemma merge_loop_untouched fixm : forall js nb i (objs : list oref) v j,
+  ~ In j js -> nth j (fst (merge_loop fixm js nb i objs v)) None = nth j objs None.
+Proof.
+  induction js as [|j0 js IH]; intros nb i objs v j Hn; simpl in *; auto.
+  assert (j0 <> j /\ ~ In j js) as [Hne Hn'] by tauto.
+  match goal with |- context [if ?b then _ else _] => destruct b end.
+  - rewrite IH by auto. apply nth_upd_other; auto.
+  - rewrite IH by auto. destruct fixm; auto. apply nth_upd_other; auto.
 Qed.
